@@ -180,9 +180,9 @@ pub fn plan_for(prop: &str, tier: Tier, seed: u64, verif_dir: &str) -> Option<Pl
 			property: "C12".into(),
 			tier,
 			seed,
-			jobs: vec![job("lnsim", "roundtrip", n(250, 8000))],
+			jobs: vec![job("lnsim", "roundtrip", n(250, 8000)), job("gossipsim", "mixed", n(15000, 200000))],
 			level: "exploration".into(),
-			rule: "profile `roundtrip`: during a `forward`-style run (payments, crashes, async persistence, on-chain closes), at seeded points every live ChannelMonitor, every ChannelMonitorUpdate seen at the Watch tap and the ChannelManager are written and read back: C12-a monitor == read(write(monitor)) (LDK's own field-wise equality, hook H3) also after a second trip and after applying the next update to both copies, updates re-serialise identically; C12-b the reloaded manager lists the same channels and payments; C12-c the stored bytes are then read through a fault-injecting reader (truncation at every seeded offset, io::Error, bit flips): decoding must return Err or a value, never panic, and never accept a truncated monitor. One evaluation = one seeded run (config, schedule and faults all drawn from the run seed; replay executes the recorded action trace). non-trivial = the run executed at least one payment/HTLC to a terminal state or fired at least one fault; distinct = distinct FNV hash of the executed (action kind, actor) sequence.".into(),
+			rule: "profile `roundtrip`: during a `forward`-style run (payments, crashes, async persistence, on-chain closes), at seeded points every live ChannelMonitor, every ChannelMonitorUpdate seen at the Watch tap and the ChannelManager are written and read back: C12-a monitor == read(write(monitor)) (LDK's own field-wise equality, hook H3) also after a second trip and after applying the next update to both copies, updates re-serialise identically; C12-b the reloaded manager lists the same channels and payments; C12-c the stored bytes are then read through a fault-injecting reader (truncation at every seeded offset, io::Error, bit flips): decoding must return Err or a value, never panic, and never accept a truncated monitor. Job gossipsim/`mixed` (see C17) adds the network graph: at seeded points of gossip histories (P2P, RGS snapshots, pruning) the graph is written and read back, C12-d read(write(g)) == g under NetworkGraph's own PartialEq, same public view, and the copy serialises again to the same length. One evaluation = one seeded run (config, schedule and faults all drawn from the run seed; replay executes the recorded action trace). non-trivial = the run executed at least one payment/HTLC to a terminal state or fired at least one fault; distinct = distinct FNV hash of the executed (action kind, actor) sequence.".into(),
 			assumptions: t_assumptions.clone(),
 			probes: vec![],
 			exhaustive: false,
